@@ -503,3 +503,50 @@ def fault_program(pid, cfg, cs):
         {"op": "dropfs"},
     ]
     return {"id": pid, "cfg": cfg, "ops": ops, "origin": "fixed:fault-history"}
+
+
+def crash_program(rng, pid, cfg, cs, n_files=2, n_after=12):
+    """files written and flushed/closed, followed by unrelated activity; the harness then enumerates
+    every crash point after the first flush (C14)"""
+    cfg = dict(cfg, wlog=True)
+    ops = []
+    hs = []
+    ops.append({"op": "create_dir", "at": "", "path": "keep"})
+    for k in range(n_files):
+        h = "h%d" % k
+        nm = rng.choice(["", "keep/"]) + rng.choice(["data-file-%d.bin" % k, "D%d" % k])
+        ops.append({"op": "create_file", "at": "", "path": nm, "as": h})
+        for _ in range(rng.choice([1, 2, 3])):
+            ops.append({"op": "write_all", "h": h, "pat": rng.randrange(1000), "len": rng.choice([1, cs - 1, cs, cs + 1, 2 * cs + 3])})
+            if rng.random() < 0.5:
+                ops.append({"op": "flush", "h": h})
+        if rng.random() < 0.5:
+            ops.append({"op": "seek", "h": h, "from": "start", "off": rng.choice([0, 1, cs])})
+            ops.append({"op": "truncate", "h": h})
+        ops.append({"op": rng.choice(["flush", "close"]), "h": h})
+        hs.append((h, nm))
+    # unrelated activity afterwards: other files, directories, removal of neighbours, renames
+    for j in range(n_after):
+        r = rng.random()
+        if r < 0.3:
+            h = "o%d" % j
+            ops.append({"op": "create_file", "at": "", "path": rng.choice(["", "keep/"]) + "other-%d.tmp" % j, "as": h})
+            ops.append({"op": "write_all", "h": h, "pat": j, "len": rng.choice([10, cs, 2 * cs])})
+            ops.append({"op": "close", "h": h})
+        elif r < 0.45:
+            ops.append({"op": "create_dir", "at": "", "path": "dir-%d" % j})
+        elif r < 0.6:
+            ops.append({"op": "remove", "at": "", "path": rng.choice(["other-%d.tmp" % rng.randrange(n_after), "keep/other-%d.tmp" % rng.randrange(n_after), "dir-%d" % rng.randrange(n_after)])})
+        elif r < 0.7:
+            ops.append({"op": "rename", "at": "", "src": "dir-%d" % rng.randrange(n_after), "to": "", "dst": "keep/moved-%d" % j})
+        elif r < 0.8:
+            # modify one of the flushed files again (the flushed state is then no longer promised)
+            h, nm = rng.choice(hs)
+            ops.append({"op": "write_all", "h": h, "pat": 77, "len": rng.choice([1, cs])})
+        elif r < 0.9:
+            ops.append({"op": "rename", "at": "", "src": "keep", "to": "", "dst": "kept-%d" % j})
+            ops.append({"op": "rename", "at": "", "src": "kept-%d" % j, "to": "", "dst": "keep"})
+        else:
+            ops.append({"op": "stats"})
+    ops.append({"op": "unmount"})
+    return {"id": pid, "cfg": cfg, "ops": ops, "crash": {"stride": 1}, "origin": "random:crash"}
